@@ -123,7 +123,8 @@ func guarded(f func()) (o outcome) {
 }
 
 // decodeOp: "<class>\t<kind>\t<site>\t<alloc>\t<render>"
-//   class: ok | err | panic | oversize ; kind: error kind resp. panic kind
+//
+//	class: ok | err | panic | oversize ; kind: error kind resp. panic kind
 func decodeOp(entry string, version int16, buf []byte) string {
 	e := entryByName[entry]
 	var err error
